@@ -27,7 +27,7 @@ RULE = ("one plant per case from the catalogue in vf/props/c32.py (PLANTS); temp
 FLOORS = {"plants_judged": 60, "accepted_and_compared": 15, "rejected": 25}
 
 HDR = '''from guppylang import guppy
-from guppylang.std.builtins import result, array, owned, panic
+from guppylang.std.builtins import result, array, owned, panic, comptime
 
 def deco(f):
     def wrapped(a):
@@ -37,6 +37,15 @@ def deco(f):
 @guppy
 def helper(a: int, b: int) -> int:
     return a * 10 + b
+
+@guppy.struct
+class PK:
+    a: int
+    b: int
+
+    @guppy
+    def add(self: "PK", k: int) -> int:
+        return self.a + self.b + k
 
 '''
 
@@ -81,6 +90,22 @@ PLANTS = [
     ("call_starargs", "t = (1, 2)\nresult('x', helper(*t))"),
     ("call_kwargs", "result('x', helper(**{'a': 1, 'b': 2}))"),
     ("result_keyword", "result(tag='x', value=3)"),
+    # keyword arguments on calls in *checking* position (known target type) and on special forms
+    ("call_keyword_annassign", "x: int = pow(2, 10, mod=7)\nresult('x', x)"),
+    ("call_keyword_return", "def inner() -> int:\n    return pow(3, 4, mod=5)\nresult('x', inner())"),
+    ("call_keyword_as_argument", "result('x', helper(pow(2, 10, mod=7), 1))"),
+    ("call_keyword_user_checkpos", "x: int = helper(1, 2, b=3)\nresult('x', x)"),
+    ("comptime_keyword", "result('x', comptime(3, foo=4))"),
+    ("comptime_keyword_only", "result('x', comptime(x=3))"),
+    ("array_keyword", "xs = array(1, 2, n=3)\nresult('x', len(xs))"),
+    ("range_keyword", "x = 0\nfor i in range(3, step=2):\n    x += 1\nresult('x', x)"),
+    ("len_keyword", "xs = array(1, 2)\nresult('x', len(xs, foo=1))"),
+    ("panic_keyword", "x = 1\nif x == 2:\n    panic('m', x=1)\nresult('x', x)"),
+    ("int_keyword", "result('x', int(2.5, base=10))"),
+    ("struct_ctor_keyword", "p = PK(a=1, b=2)\nresult('x', p.a * 10 + p.b)"),
+    ("struct_ctor_keyword_swapped", "p = PK(b=1, a=2)\nresult('x', p.a * 10 + p.b)"),
+    ("method_call_keyword", "p = PK(1, 2)\nresult('x', p.add(k=5))"),
+    ("nested_call_keyword_checkpos", "def inner(a: int, b: int) -> int:\n    return a * 10 + b\nx: int = inner(1, b=2)\nresult('x', x)"),
     ("nested_decorator", "@deco\ndef inner(a: int) -> int:\n    return a + 1\nresult('x', inner(1))"),
     ("nested_default", "def inner(a: int = 5) -> int:\n    return a + 1\nresult('x', inner())"),
     ("nested_default_given", "def inner(a: int = 5) -> int:\n    return a + 1\nresult('x', inner(2))"),
